@@ -6,7 +6,8 @@ PROP = "C04"
 MODULE = "PLS.Props.C04H"     # imports PLS.Props.C04
 THEOREMS = ["PLS.C04_inverse", "PLS.C04_unresolved", "PLS.C04_functional", "PLS.C04_nodup",
             "PLS.C04_cli_count", "PLS.C04_cli_count_eq_refs",
-            "PLS.C04_lens_counts", "PLS.C04_incoming_calls", "PLS.C04_references"]
+            "PLS.C04_lens_counts", "PLS.C04_incoming_calls", "PLS.C04_references",
+            "PLS.C04_usage_found_anywhere", "PLS.C04_usage_lookup_order_independent"]
 RULE = ("generated workspaces (as C01) plus edit histories over them; for EVERY (definition, usage) pair of the final "
         "index: usage listed under the definition <=> go-to-definition at the usage's first column lands on it; no "
         "duplicates; usages resolving to nothing listed nowhere. Pure cross-feature comparison of the implementation's "
